@@ -354,6 +354,16 @@ def gen_cases(rng, tier):
             st = [r.below(256) for _ in range(r.below(min(capn_r, 6)))]
             ops, flags = random_seq(r, st, capn_r, T, 200)
             cases.append(Case(T, be, capn_r, st, ops, flags, "rand200"))
+    # short views: the view ends INSIDE (or right after) the length prefix, so no operation may touch the prefix
+    # without the size check reporting it (checked builds only: every call must end in the handler, nothing is
+    # written); one call per case
+    for T, be in cfgs:
+        L = LS[T]
+        for cap in range(0, L):
+            for o in [("clr",), ("pop",), ("pb", A), ("rs", 0), ("rd", 0), ("rv", 0, A), ("rs", 1), ("an", 0, A), ("ai", ()),
+                      ("al", ()), ("as", ()), ("ar", ()), ("e1", 0), ("er", 0, 0), ("i1", 0, A), ("in", 0, 0, A),
+                      ("if", 0, ()), ("ii", 0, ()), ("il", 0, ())]:
+                cases.append(Case(T, be, cap - L, [], [o], [False], "short-view"))
     # the max_size boundary of the one-byte length type: sizes 250..255 inside a large buffer
     for be in (0, 1):
         r = rng.fork("u8max-%d" % be)
@@ -415,6 +425,22 @@ def check_case(res, c, mline, iline, cfgname, chk):
             T, order, "checks" if chk else "nochecks", hx(c.start), " ".join(tok(o) for o in c.ops[:k + 1]), cfgname),
             {"cases": [rj], "config": cfgname, "chk": chk, "model": mline, "observed": iline})
 
+    if c.kind == "short-view":
+        # no valid view here: only the transcription is judged (the model of the code reports the handler for every
+        # call; the code must do the same and must not have written anything)
+        res.evaluations += 1
+        res.nontrivial.add(hash((chk,) + key0 + (c.capn,) + tuple(c.ops)))
+        if mt[0] != "wf=0" or it[0] != "wf=0":
+            return viol("short-view:wf", "a view ending inside its length prefix is reported well-formed (model %s impl %s)" % (mt[0], it[0]), 0)
+        m1 = mt[1].split(":")[0] if len(mt) > 1 else "missing"
+        i1 = it[1].split(":")[0] if len(it) > 1 else "missing"
+        if m1 != "assert":
+            return viol("short-view:model", "the model of the code does not report %s on a view of %d bytes (%s)" % (tok(c.ops[0]), c.cap, m1), 0)
+        if i1 != "assert":
+            return viol("short-view:%s:%s" % (c.ops[0][0], i1),
+                        "%s on a <data> view of %d bytes (length prefix needs %d): the handler was not invoked (%s) although "
+                        "the length prefix lies at or beyond the end of the view" % (tok(c.ops[0]), c.cap, L, i1), 0)
+        return False
     if mt[0] != "wf=1" or it[0] != "wf=1":
         return viol("harness:wf", "initial state not well-formed (model %s impl %s)" % (mt[0], it[0]), 0)
     xs = list(c.start)
